@@ -61,6 +61,32 @@ def rule_accessors(rep, pdb):
             continue
         ctx = Ctx.for_fn(pdb, fn)
         effs = [e for e in effects(pdb, ctx) if e.kind == "set" and e.loops]
+        if kind == "get" and not effs:
+            # other ways to build the same vector: in-order pushes into an empty Vec / Vector, or (rows only) a copy of the
+            # contiguous slice row*cols .. row*cols + cols of the row-major storage
+            other = COLS if fixed == "row" else ROWS
+            tail = fn["body"].get("expr")
+            tt = ctx.term(tail) if tail is not None else None
+            inner = tt[2] if tt is not None and tt[0] == "call" and str(tt[1]).endswith("Vector<T>::create") and len(tt) == 3 else tt
+            pushes = [e for e in effects(pdb, ctx) if e.kind == "push" and len(e.loops) == 1]
+            MAT_ = F(P(0), "mat")
+            from .terms import lin_mul
+            if len(pushes) == 1 and inner == pushes[0].target:
+                e = pushes[0]
+                r = for_range(ctx, e.loops[0])
+                src = elem_ref(pdb, ctx, _first_index(e.vnode))
+                tb = ctx.binds.get(e.target[1]) if e.target[0] == "var" else None
+                ti = ctx.term(tb.init) if tb is not None and tb.init is not None else None
+                fresh = ti is not None and ti[0] == "call" and (str(ti[1]).endswith("::new") or str(ti[1]).endswith("::empty")) and len(ti) == 2
+                good = r is not None and r[1:5] == (num(0), other, False, False) and src is not None and len(src) == 3 and src[0] == P(0) and \
+                    ((fixed == "row" and src[1] == P(1) and src[2] == r[0]) or (fixed == "col" and src[2] == P(1) and src[1] == r[0]))
+                rep.add(key, rule, bool(good and fresh), e.node, "in-order pushes over 0..%s of self(%s) into an empty vector: %s" % (show(other, ctx), "row,k" if fixed == "row" else "k,col", good and fresh))
+                continue
+            if fixed == "row" and inner is not None and inner[0] == "call" and str(inner[1]).endswith("to_vec") and inner[2][0] == "idx" and inner[2][1] == MAT_ and inner[2][2][0] == "range":
+                lo, hi = inner[2][2][1], inner[2][2][2]
+                good = lo == lin_mul(P(1), COLS) and hi == lin_add(lo, COLS) and not inner[2][2][3]
+                rep.add(key, rule, good, fn["body"], "copy of the storage slice %s..%s" % (show(lo, ctx), show(hi, ctx)), where=loc(fn["body"]))
+                continue
         if len(effs) != 1:
             rep.bad(key, rule, fn["body"], "expected one element write in a loop, found %d" % len(effs))
             continue
